@@ -471,7 +471,11 @@ fn check_balance<'ctx>(
     }
     // commodities which cancel out don't take part in the implied exchange.
     balance.remove_zero_entries();
-    if let Some((a1, a2)) = balance.maybe_pair() {
+    // two remaining commodities are an implied exchange only when one pays for the other.
+    let pair = balance
+        .maybe_pair()
+        .filter(|(a1, a2)| a1.value.is_sign_positive() != a2.value.is_sign_positive());
+    if let Some((a1, a2)) = pair {
         // fill in converted amount.
         for p in postings.iter_mut() {
             let amount: Result<SingleAmount<'_>, _> = (&p.amount).try_into();
